@@ -250,12 +250,9 @@ def handlerEvent (t : Transport) (decision : Option Bool) : Event :=
 /-- **tie**: in both handlers the `Ok` arm records the decision's own `allowed` flag with the request
     key under the handler's transport, the `Err` arm records an error, and nothing else is recorded -/
 theorem C15_tie_http_grpc_calls :
-    Gen.HTTP_METRIC_CALLS = [("err", "record_error(MetricsTransport::Http)"),
-                             ("ok", "record_request_with_key(MetricsTransport::Http, response.allowed, &req.key)")] ∧
-    Gen.GRPC_METRIC_CALLS = [("err", "record_error(MetricsTransport::Grpc)"),
-                             ("ok", "record_request_with_key(MetricsTransport::Grpc, result.allowed, &req.key)")] ∧
-    Gen.RESP_METRIC_CALLS = ["record_request_with_key(MetricsTransport::Redis, allowed, &key)",
-                             "record_request(MetricsTransport::Redis, allowed)"] := by decide
+    Gen.HTTP_METRIC_CALLS = [("err", "record_error(Http)"), ("ok", "record_request_with_key(Http, allowed, key)")] ∧
+    Gen.GRPC_METRIC_CALLS = [("err", "record_error(Grpc)"), ("ok", "record_request_with_key(Grpc, allowed, key)")] ∧
+    Gen.RESP_METRIC_CALLS = ["record_request_with_key(Redis, allowed, key)", "record_request(Redis, allowed)"] := by decide
 
 /-- HTTP / gRPC: `denied` is recorded exactly for a decision with `allowed = false`; a limiter error
     is recorded as an error, never as allowed or denied -/
